@@ -10,6 +10,7 @@ import (
 
 	"verif/internal/c04"
 	"verif/internal/c11"
+	"verif/internal/c15"
 	"verif/internal/mach"
 	"verif/internal/wire"
 )
@@ -33,6 +34,8 @@ func main() {
 		o = c11.Run(*seed, *n, 300)
 	case "c04":
 		o = c04.Run(*seed, *n, 30)
+	case "c15":
+		o = c15.Run(*seed, *n)
 	case "mach":
 		o = mach.RunRandom("mach", *seed, *n, 60, nil)
 	default:
